@@ -49,6 +49,7 @@ package gen
 //@ functype func(*GEN.ParquetWriter) error
 //@   requires arg0 != nil
 //@   requires fnid(self) == fnidOf("GEN.begin") ==> external(arg0.w)
+//@   free-requires live(par1)
 //@   modifies arg0, wfault
 //@   ensures arg0.w == old(arg0.w)
 //@   ensures fnid(self) != fnidOf("GEN.begin") ==> wfault == old(wfault)
